@@ -43,7 +43,7 @@ func sites(c *copyx.Case, d *gen.DAG) []site {
 		for len(stack) > 0 {
 			x := stack[len(stack)-1]
 			stack = stack[:len(stack)-1]
-			out = append(out, site{"src", "Predecessors", x, []string{"before"}})
+			out = append(out, site{"src", "Predecessors", x, []string{"before", "after"}})
 			for _, p := range parents[x] {
 				if !up[p] && !d.Nodes[p].Spec.Absent {
 					up[p] = true
@@ -58,14 +58,14 @@ func sites(c *copyx.Case, d *gen.DAG) []site {
 		}
 	}
 	for _, id := range gen.SortedKeys(universe) {
-		out = append(out, site{"dst", "Exists", id, []string{"before"}})
+		out = append(out, site{"dst", "Exists", id, []string{"before", "after"}})
 		if pre[id] {
 			if c.Callbacks {
 				out = append(out, site{"cb", "OnCopySkipped", id, []string{"before"}})
 			}
 			continue
 		}
-		out = append(out, site{"src", "Fetch", id, []string{"before"}})
+		out = append(out, site{"src", "Fetch", id, []string{"before", "after"}})
 		out = append(out, site{"dst", "Push", id, []string{"before", "after"}})
 		if c.Callbacks {
 			out = append(out, site{"cb", "PreCopy", id, []string{"before"}}, site{"cb", "PostCopy", id, []string{"before"}})
@@ -73,6 +73,7 @@ func sites(c *copyx.Case, d *gen.DAG) []site {
 	}
 	if c.API == "copy" {
 		out = append(out, site{"dst", "Tag", root, []string{"before"}})
+		out = append(out, site{"src", "Resolve", -1, []string{"before", "after"}})
 	}
 	return out
 }
@@ -116,11 +117,17 @@ func genCase(t *rapid.T) copyx.Case {
 		}
 		s := rapid.SampledFrom(pool).Draw(t, "site")
 		f := inst.Fault{Side: s.Side, Op: s.Op, Node: s.Node, When: rapid.SampledFrom(s.Whens).Draw(t, "when")}
+		if s.Op == "Resolve" {
+			f.Node, f.Ref = 0, copyx.SrcRef
+		}
 		f.Kind = "error"
-		if rapid.IntRange(0, 3).Draw(t, "cancel") == 0 {
+		if rapid.IntRange(0, 2).Draw(t, "cancel") == 0 {
 			f.Kind = "cancel"
 		}
 		c.Faults = append(c.Faults, f)
+	}
+	if rapid.IntRange(0, 24).Draw(t, "preCancel") == 0 {
+		c.PreCancel = true
 	}
 	return c
 }
@@ -194,8 +201,26 @@ func Run(e *copyx.Env, c *copyx.Case, leg string) (res vt.Result, fail *vt.Fail)
 	if mustFail && out.Err == nil {
 		return res, vt.Failf("C02/fault-swallowed", "%s returned nil although a fault fired on an operation it needs: %+v fired=%v", c.API, c.Faults, e.Rec.Fired)
 	}
-	if !fired && out.Err != nil {
+	if c.PreCancel {
+		res.Classes = append(res.Classes, "context-cancelled-before-the-call")
+		if out.Err == nil {
+			return res, vt.Failf("C02/cancelled-call-reports-success", "%s was called with an already cancelled context and returned nil", c.API)
+		}
+	} else if !fired && out.Err != nil {
 		return res, vt.Failf("C02/fault-free-copy-failed", "%s failed although no fault fired: %v", c.API, out.Err)
+	}
+	if out.Err == nil {
+		// a call that reports success (e.g. after a cancellation that arrived once
+		// an operation had completed) must have done the work
+		if f := e.CheckPresent(d.Reach(c.Root, true), "C02/success-reported", "after a nil result with faults "+fmt.Sprint(c.Faults)); f != nil {
+			return res, f
+		}
+		if c.API == "copy" {
+			got, err := e.RawDst.Resolve(context.Background(), copyx.DstRef)
+			if err != nil || got.Digest != d.Nodes[d.Nodes[c.Root].Canon].Desc.Digest {
+				return res, vt.Failf("C02/success-reported/root-not-tagged", "Copy returned nil (faults %v) but the destination reference does not resolve to the root: %v", c.Faults, err)
+			}
+		}
 	}
 	if f := e.CheckClosed("C02", "after the faulty attempt (err="+fmt.Sprint(out.Err)+")"); f != nil {
 		return res, f
